@@ -493,6 +493,15 @@ func runStake(r *Rec, prop string) {
 		e.block(nil, []stakeOp{{"rankreset", 0}}, nil, 6*time.Second)
 	}
 	{
+		// after a rank reset put a jailed validator back to Active, an unjail proposal for it must be refused (it is not
+		// jailed any more — whatever records the jailing left behind) and must not change its status
+		e := newStakeEp(r, prop, 3, "witness-rank-reset-then-unjail")
+		e.block(nil, []stakeOp{{"jail", 0}}, nil, 6*time.Second)
+		e.block(nil, []stakeOp{{"rankreset", 0}}, nil, 6*time.Second)
+		e.block(nil, []stakeOp{{"unjail", 0}}, nil, 6*time.Second)
+		e.block(nil, nil, []stakeOp{{"activate", 0}}, 60*time.Second)
+	}
+	{
 		e := newStakeEp(r, prop, 3, "witness-all-pause")
 		if !e.block(nil, nil, []stakeOp{{"pause", 0}, {"pause", 1}, {"pause", 2}}, 6*time.Second) {
 			r.Known("C05/pause-all/empty-set", "the Pause guard counts validator records, not active validators: all validators pause in one block and the consensus set would become empty")
